@@ -121,7 +121,7 @@ def conjugateT (tbl : Table) (noCheck : List String) : GateTerm Q → List Pauli
       | .error e => .error e
       | .ok (f0, o0) => match conjugateT tbl noCheck g1 (ops.drop n0) with
         | .error e => .error e
-        | .ok (f1, o1) => .ok (f0 || f1, o0 ++ o1)
+        | .ok (f1, o1) => .ok (f0 != f1, o0 ++ o1)
   | .Composite _ n body, ops =>
     if ops.length ≠ n then .error (.invalidNrBits ops.length n)
     else conjOpsT tbl noCheck body ops false
